@@ -57,4 +57,48 @@ def simulate (nb : Nat) (regs : List CReg) (start step stop : Int) (fuel : Nat) 
     if e.startsWith "emit:" then deliver nb regs (e.drop 5).toString c s.step else []
   return (s, evs)
 
+/-! ### explicit step sizes, split runs (LESSONS audit) -/
+
+open Viv.Ctx in
+/-- the events a method call added to the log, each with the clock at which it happened -/
+def newEvents (before after : Sim) : List (String × Int) :=
+  (after.ctl.log.zip after.tlog).drop before.ctl.log.length
+
+/-- expand emitted events into listener calls; `step` is the global step in force while they were emitted -/
+def expandEvents (nb : Nat) (regs : List CReg) (step : Int) (evs : List (String × Int)) : List Call :=
+  evs.flatMap fun (e, c) => if e.startsWith "emit:" then deliver nb regs (e.drop 5).toString c step else []
+
+open Viv.Ctx in
+/-- `InteractiveContext.step(x)` for every `x` of `sizes` (no per-simulant clocks: the old step is written back
+after each), with the listener calls each of them makes -/
+def explicitSteps (nb : Nat) (regs : List CReg) : List Int → Sim → Except (Fail × Sim) (Sim × List Call)
+  | [], s => .ok (s, [])
+  | x :: xs, s =>
+    match stepWithSize x s with
+    | .error e => .error e
+    | .ok s' =>
+      match explicitSteps nb regs xs s' with
+      | .error e => .error e
+      | .ok (s'', calls) => .ok (s'', expandEvents nb regs x (newEvents s s') ++ calls)
+
+open Viv.Ctx in
+/-- an interactive session: `InteractiveContext(...)` (setup + initial population), explicit steps of the given
+sizes, then `run()`, `finalize()`, `report()` -/
+def simulateSizes (nb : Nat) (regs : List CReg) (start step stop : Int) (sizes : List Int) (fuel : Nat) :
+    Except (Fail × Sim) (Sim × List Call) := do
+  let s0 ← isetup (Ctx.init start step stop)
+  let (s1, xcalls) ← explicitSteps nb regs sizes s0
+  let s2 ← run fuel s1
+  let s3 ← call "finalize" s2
+  let s4 ← call "report" s3
+  return (s4, expandEvents nb regs step (newEvents (Ctx.init start step stop) s0) ++ xcalls ++
+              expandEvents nb regs step (newEvents s1 s4))
+
+/-- `run_until(a)`, then `run_for(d)`, then `run()` from clock `t`: the three step counts and the final clock -/
+def splitRun (stop h a d : Int) (fuel : Nat) (t : Int) : Nat × Nat × Nat × Int :=
+  let r1 := runLoop a h fuel t
+  let r2 := runLoop (r1.2 + d) h fuel r1.2
+  let r3 := runLoop stop h fuel r2.2
+  (r1.1, r2.1, r3.1, r3.2)
+
 end Viv.Ev
